@@ -413,6 +413,13 @@ pub fn run_c10(tier: &str, seed: u64, model: &Model, corpus_lines: Vec<String>, 
         let c = MinCase { recs, w: 0, m: 10, threads: 2, sched: "free".into() };
         run_one(&c, "contigs-whole-record", &mut rep, &mut traces, &mut branching);
     }
+    // more than 2^16 records (tiny ones)
+    {
+        let n = rng.range(65_600, 66_500) as usize;
+        let recs: Vec<Vec<u8>> = (0..n).map(|i| gen::clean_seq(&mut rng, 8 + (i % 7), gen::Flavor::Uniform)).collect();
+        let c = MinCase { recs, w: 9, m: 7, threads: 4, sched: "free".into() };
+        run_one(&c, "records-beyond-16-bits", &mut rep, &mut traces, &mut branching);
+    }
     // whole-record mode on a record of more than 2^20 bases: a window of a million m-mers (expected line from the closed form
     // that w0_single_window proves; see the driver)
     {
